@@ -5,5 +5,5 @@ for d in seeded/*/; do
   sid=$(basename $d)
   props=$(python3 -c "import json,re,sys; m=json.load(open('$d/meta.json')); print(' '.join(sorted(set(re.findall(r'C\d\d', m.get('detected_by','') + ' ' + m['property'])))))")
   echo "### $sid -> $props"
-  TIER=${TIER:-quick} SHOW=0 tools/try_seed.sh /verif/$d $props 2>&1 | grep "^== "
+  TIER=${TIER:-quick} SHOW=0 tools/try_seed.sh /verif/$d $props 2>&1 | grep "^== \|does not apply"
 done
